@@ -56,6 +56,30 @@ def check(ctx):
                 if any(isinstance(x, tuple) and x[:1] == ("regtop",) for x in _subs(it)):
                     wholes.append(e)
     n_access = 0
+    # idiom: the registry is an element of a tuple/list display that a for statement iterates, and the loop variable is used
+    # in the body only as the base of a subscript; the subscripts through that variable are then the accesses of the site
+    parents = {}
+    for mn in sorted(proto_mods):
+        for n in ast.walk(prog.modules[mn].tree):
+            for ch in ast.iter_child_nodes(n):
+                parents[ch] = n
+    for key, node in sorted(sites.items()):
+        if key in covered:
+            continue
+        disp = parents.get(node)
+        loop = parents.get(disp) if isinstance(disp, (ast.Tuple, ast.List)) else None
+        if not (isinstance(loop, ast.For) and loop.iter is disp and isinstance(loop.target, ast.Name)):
+            continue
+        var = loop.target.id
+        uses = [n for st in loop.body for n in ast.walk(st) if isinstance(n, ast.Name) and n.id == var]
+        if not uses or not all(isinstance(u.ctx, ast.Load) and isinstance(parents.get(u), ast.Subscript) and parents[u].value is u for u in uses):
+            continue
+        via = []
+        for u in uses:
+            via += covered.get((key[0], u.lineno, u.col_offset), [])
+        via = [(c, e) for c, e in via if e.a["reg"] == node.attr]
+        if via:
+            covered[key] = via
     for key, node in sorted(sites.items()):
         evs = covered.get(key)
         inst = "%s:%d registry access %s" % (key[0], key[1], node.attr)
